@@ -194,17 +194,52 @@ func (s *Server) DidOpen(ctx context.Context, params *protocol.DidOpenTextDocume
 	return nil
 }
 
+// ContentChange is one entry of a textDocument/didChange notification. Range is
+// a pointer because protocol.TextDocumentContentChangeEvent.Range is a plain
+// struct: after the protocol library's decoding, a change without range (replace
+// the whole document) cannot be told from a ranged change at 0:0-0:0 (an
+// insertion at the very start of the document).
+type ContentChange struct {
+	Range *protocol.Range `json:"range,omitempty"`
+	Text  string          `json:"text"`
+}
+
+// DidChangeParams are the parameters of textDocument/didChange with optional ranges.
+type DidChangeParams struct {
+	TextDocument   protocol.VersionedTextDocumentIdentifier `json:"textDocument"`
+	ContentChanges []ContentChange                          `json:"contentChanges"`
+}
+
+// DidChange accepts the protocol library's parameter type, which cannot
+// represent an absent range: a zero range is taken to mean "no range". The
+// server binary decodes the notification itself and calls DidChangeDocument, so
+// that an insertion at 0:0 is not mistaken for a whole-document replacement.
 func (s *Server) DidChange(ctx context.Context, params *protocol.DidChangeTextDocumentParams) error {
+	changes := make([]ContentChange, len(params.ContentChanges))
+	for i, change := range params.ContentChanges {
+		changes[i].Text = change.Text
+		if !isFullChange(change.Range) {
+			r := change.Range
+			changes[i].Range = &r
+		}
+	}
+	return s.DidChangeDocument(ctx, &DidChangeParams{
+		TextDocument:   params.TextDocument,
+		ContentChanges: changes,
+	})
+}
+
+func (s *Server) DidChangeDocument(ctx context.Context, params *DidChangeParams) error {
 	if doc, ok := s.documents.Load(params.TextDocument.URI); ok {
 		content, ok := doc.(string)
 		if !ok {
 			return nil
 		}
 		for _, change := range params.ContentChanges {
-			if isFullChange(change.Range) {
+			if change.Range == nil {
 				content = change.Text
 			} else {
-				content = applyChange(content, change.Range, change.Text)
+				content = applyChange(content, *change.Range, change.Text)
 			}
 		}
 		s.documents.Store(params.TextDocument.URI, content)
